@@ -5,7 +5,9 @@ from props.enginea import run_engine_a
 from props import c02
 
 LEVEL = "proof"
-FNS = [f for f in mpfcases.GENS if f not in ("bitcount", "trailing", "round_int")]
+import cxcases
+FNS = [f for f in mpfcases.GENS if f not in ("bitcount", "trailing", "round_int", "isqrt", "sqrtrem")] + \
+      [f for f in cxcases.GENS if f.startswith("mpc_") and f != "mpc_hash"] + ["mpi_add", "mpi_sub", "mpi_mul", "mpi_div", "mpi_abs", "mpi_square", "mpi_pow_int", "mpi_sqrt"]
 TAGS = {"C01"}
 
 
@@ -60,6 +62,34 @@ def api_sweep(rep, tier_, rng):
                         if not canonical(t):
                             rep.violation("interval operation returned a non-canonical endpoint",
                                           {"fn": "iv", "x": repr(x), "y": repr(y), "prec": prec, "value": list(t)})
+        # constructors from raw tuples / (man, exp) pairs with even mantissas, and pickle/copy of every kind of value
+        import pickle, copy, gen
+        for _ in range(150 * n_each):
+            prec = rng.choice([5, 24, 53, 100]); mp.prec = prec
+            man = gen.mant(rng, rng.randint(1, 130)) << rng.choice([0, 0, 1, 2, 5, 8, 16])
+            e = rng.randint(-50, 50); sg = rng.randrange(2)
+            forms = [("mpf((man,exp))", lambda: mp.mpf(((-man if sg else man), e))),
+                     ("mpf((sign,man,exp,bc))", lambda: mp.mpf((sg, man, e, man.bit_length()))),
+                     ("mpc(tuple parts)", lambda: mp.mpc(mp.mpf((sg, man, e, man.bit_length())), mp.mpf((man, e)))),
+                     ("ldexp", lambda: mp.ldexp(mp.mpf(man), e)), ("mpf(int)", lambda: mp.mpf(-man if sg else man))]
+            for nm, f in forms:
+                calls += 1
+                v = f()
+                for t in parts(v):
+                    values += 1
+                    if not canonical(t):
+                        rep.violation("%s produced a non-canonical value" % nm, {"fn": nm, "man": hexz(man), "exp": e, "prec": prec, "value": list(t)})
+                w = mp.mpf(-man if sg else man) * mp.mpf(2) ** e if prec >= man.bit_length() else None
+                if nm.startswith("mpf((") and w is not None and not (v == w and hash(v) == hash(w)):
+                    rep.violation("%s not equal/hash-equal to the same value built arithmetically" % nm, {"fn": nm, "man": hexz(man), "exp": e, "prec": prec})
+        for v in (mp.inf, mp.ninf, mp.nan, mp.mpf(0), mp.mpf(3) / 7, mp.mpc(mp.inf, 1), mp.mpc(0, mp.ninf), mp.mpc(mp.nan, mp.nan)):
+            for mk in (lambda o: pickle.loads(pickle.dumps(o)), lambda o: pickle.loads(pickle.dumps(o, 0)), copy.copy, copy.deepcopy):
+                calls += 1
+                w = mk(v)
+                for t in parts(w):
+                    values += 1
+                    if not canonical(t):
+                        rep.violation("pickle/copy produced a non-canonical value", {"fn": "pickle/copy", "value": list(t), "orig": repr(v)})
     finally:
         mp.prec = p0
     return {"api_sweep_calls": calls, "api_sweep_values_checked": values, "api_sweep_documented_errors": errors,
@@ -67,11 +97,13 @@ def api_sweep(rep, tier_, rng):
 
 
 def make(rng, fn, n):
-    return c02.make(rng, fn, n)
+    import allcases
+    return allcases.make(rng, fn, n)
 
 
 def run(rep, tier_, rng):
-    run_engine_a(rep, "C01", tier_, rng, FNS + ["API_OPS", "API_F"], TAGS, n_quick=250, n_thorough=4000, extra=api_sweep, make=make)
+    import allcases
+    run_engine_a(rep, "C01", tier_, rng, FNS + ["API_OPS", "API_F"], TAGS, n_quick=200, n_thorough=3000, extra=api_sweep, make=make, spec=allcases.spec)
 
 
 replay = c02.replay
